@@ -130,6 +130,9 @@ M = [
     ("C14", "regionless-untracked-from-region-that-never-had-it", P + "client/object_manager.py",
      "        if old_region_state is not None and old_region_state.lookup_localid(old_local_id) is not obj:\n",
      "        if old_region_state is not None and False:\n"),
+    ("C19", "banned-refused-before-acks-collected", P + "client/hippo_client.py",
+     "        region.circuit.collect_acks(message)\n\n        should_handle = True\n",
+     "        if not self.message_xml.validate_udp_msg(message.name):\n            raise PermissionError(f\"UDPBanned message {message.name}\")\n        region.circuit.collect_acks(message)\n\n        should_handle = True\n"),
     # ---- C16 ----
     ("C16", "caps-append", P + "proxy/region.py", "        vals = [value] + self.popall(key, [])", "        vals = self.popall(key, []) + [value]"),
     ("C16", "temporary-not-consumed", P + "proxy/region.py", "                if cap_type == CapType.TEMPORARY and consume:",
